@@ -24,6 +24,8 @@ Definition show_inf (i : inference) :=
 def run(res, replay=None):
     # structural tie of the result bookkeeping of Inference (_run from `results` on, add_run(s), add_bootstrap(s)): translate the CURRENT source and re-check proofs/GenInferenceEquiv.v
     import translate_step; (res.proof is not None) and translate_step.run(res.proof, pid=res.pid, tie='inference')
+    # pinned reading of phasegen/utils.py (parallelize returns the runs in the order of their start values): re-check the CURRENT source against it and proofs/GenUtilsEquiv.v
+    import translate_step; (res.proof is not None) and translate_step.run(res.proof, pid=res.pid, tie='utils')
     rng = random.Random(res.seed)
     res.rule = ('inference stream: tiny identifiable models (one or two size parameters, n in {3,4}, L2 loss on height and '
                 'branch length or Poisson likelihood on the SFS, noise-free data), seeds, 1-3 runs, with/without explicit '
